@@ -1,62 +1,278 @@
-"""C09 extractor: source facts of Daemon._getInstance / behavior / register / SocketConnection -> Lean."""
+"""
+C09 extractor: facts about Daemon._getInstance / behavior / register / SocketConnection -> Lean (PyroModel/Gen/C09.lean).
+
+Two kinds of facts, chosen so that behaviour-preserving refactorings do not change them:
+
+* PROBES of the real objects (no source reading): `behavior` called on its whole abstract argument table, `register` on an
+  undecorated / decorated / inheriting class, `SocketConnection` construction and `close` (plain, keep_open, failing
+  shutdown/close), two `Daemon` objects compared for shared tables / locks, the type of the single-instance lock.
+* NORMALISED control structure of `_getInstance` and its nested creation helper: logging, docstrings, comments and type hints are
+  dropped; parameters and locals (also the helper's name) are renamed canonically (a<i> parameters, v<i> function-level locals in
+  binding order, f<i> nested helpers, x<i> locals of a branch in order of first occurrence); `if c: A(terminating)` followed by
+  `B` is the same as `if c: A else: B`; `elif` is a nested `if`; a negated test with two non-empty branches is flipped
+  (`if not c: A else: B` == `if c: B else: A`, likewise `is not` / `!=` / `not in`); a statement that ends both branches
+  of an `if` is moved behind it; `x = E; return x` is `return E`; a local bound once to `self.<attr>` is that attribute;
+  exception message texts are dropped.
+  The operator of the "no instance yet" test is reported separately (it is the model's parameter); when the syntactic form is
+  not recognised it is determined by probing the real `_getInstance` with a falsy stored instance.
+* The lock shape (which functions touch `_pyroInstances`, inside / outside `with <the single-instance lock>`; a local that is
+  bound exactly once to `self.create_single_instance_lock` counts as the lock) — this one is lexical by nature.
+"""
 import ast
+import copy
 import json
 import os
+import threading
 
 import common
 
 
+# ---------------------------------------------------------------------------------------------------------
+# normalised statement structure
+# ---------------------------------------------------------------------------------------------------------
 def _is_log(st):
     return (isinstance(st, ast.Expr) and isinstance(st.value, ast.Call) and isinstance(st.value.func, ast.Attribute)
-            and isinstance(st.value.func.value, ast.Name) and st.value.func.value.id == "log")
+            and isinstance(st.value.func.value, ast.Name) and st.value.func.value.id in ("log", "logging", "logger"))
 
 
 def _is_doc(st):
     return isinstance(st, ast.Expr) and isinstance(st.value, ast.Constant) and isinstance(st.value.value, str)
 
 
-def skel(stmts, test_hook=None):
-    """statement skeleton: control structure + unparsed simple statements; logging and docstrings dropped"""
+def _skip(st):
+    return _is_log(st) or _is_doc(st) or isinstance(st, ast.Pass)
+
+
+def terminates(nodes):
+    """does a normalised statement list always leave the function (return / raise)?"""
+    if not nodes:
+        return False
+    last = nodes[-1]
+    if last[0] == "stmt":
+        return isinstance(last[1], (ast.Return, ast.Raise))
+    if last[0] == "if":
+        return terminates(last[2]) and terminates(last[3])
+    if last[0] == "with":
+        return terminates(last[2])
+    if last[0] == "try":
+        return terminates(last[1]) and all(terminates(h) for _, h in last[2])
+    return False
+
+
+_NEG = {ast.IsNot: ast.Is, ast.NotEq: ast.Eq, ast.NotIn: ast.In}
+
+
+def _negated(test):
+    """test == not t2  ->  t2, else None"""
+    if isinstance(test, ast.UnaryOp) and isinstance(test.op, ast.Not):
+        return test.operand
+    if isinstance(test, ast.Compare) and len(test.ops) == 1 and type(test.ops[0]) in _NEG:
+        t = copy.deepcopy(test)
+        t.ops = [_NEG[type(test.ops[0])]()]
+        return t
+    return None
+
+
+def _can_fold(node):
+    return node[0] == "if" and terminates(node[2]) and (not node[3] or (len(node[3]) == 1 and _can_fold(node[3][0])))
+
+
+def _fold(node, rest):
+    """put `rest` (what follows an if whose taken branches all leave the function) into the innermost missing else"""
+    if not node[3]:
+        return ("if", node[1], node[2], rest)
+    return ("if", node[1], node[2], [_fold(node[3][0], rest)])
+
+
+def _canon_if(node):
+    """flip a negated test when both branches are non-empty; move a common last statement behind the if"""
+    _, test, then, els = node
+    pos = _negated(test)
+    if pos is not None and then and els:
+        test, then, els = pos, els, then              # `if not c: A else: B` == `if c: B else: A`
+    tail = []
+    while then and els and then[-1][0] == "stmt" and els[-1][0] == "stmt" \
+            and ast.dump(then[-1][1]) == ast.dump(els[-1][1]):
+        tail.insert(0, then[-1])                      # the same last statement on both sides comes after the if
+        then, els = then[:-1], els[:-1]
+    if not then and els:
+        neg = _negated(test)
+        test = neg if neg is not None else ast.UnaryOp(op=ast.Not(), operand=test)
+        then, els = els, []
+    return [("if", test, then, els)] + tail
+
+
+def _canon(nodes):
     out = []
-    for st in stmts:
-        if _is_log(st) or _is_doc(st):
-            continue
-        if isinstance(st, ast.If):
-            t = test_hook(st) if test_hook else None
-            s = "if(%s)[%s]" % (t or ast.unparse(st.test), skel(st.body, test_hook))
-            if st.orelse:
-                s += "else[%s]" % skel(st.orelse, test_hook)
-            out.append(s)
-        elif isinstance(st, ast.With):
-            out.append("with(%s)[%s]" % (", ".join(ast.unparse(i) for i in st.items), skel(st.body, test_hook)))
-        elif isinstance(st, ast.Try):
-            s = "try[%s]" % skel(st.body, test_hook)
-            for h in st.handlers:
-                s += "except(%s)[%s]" % (ast.unparse(h.type) if h.type else "", skel(h.body, test_hook))
-            if st.orelse or st.finalbody:
-                s += "?else-or-finally"
-            out.append(s)
-        elif isinstance(st, ast.Raise) and isinstance(st.exc, ast.Call):
-            out.append("raise " + ast.unparse(st.exc.func))       # the message text is not a fact we depend on
-        elif isinstance(st, (ast.FunctionDef, ast.ClassDef)):
-            out.append("def(%s)" % st.name)
-        elif isinstance(st, (ast.For, ast.While, ast.Match if hasattr(ast, "Match") else ast.For)):
-            out.append("?" + type(st).__name__)
+    for nd in nodes:
+        if nd[0] == "if":
+            out.extend(_canon_if(("if", nd[1], _canon(nd[2]), _canon(nd[3]))))
+        elif nd[0] == "with":
+            out.append(("with", nd[1], _canon(nd[2])))
+        elif nd[0] == "try":
+            out.append(("try", _canon(nd[1]), [(t, _canon(h)) for t, h in nd[2]]))
         else:
-            out.append(ast.unparse(st))
+            out.append(nd)
+    return _inline_returns(out)
+
+
+def norm(stmts):
+    """ast statement list -> normalised tree: ("stmt", node) | ("if", test, then, else) | ("with", items, body) |
+    ("try", body, [(type, handler)]) | ("def", node) | ("?", kind)"""
+    return _canon(_raw(stmts))
+
+
+def _raw(stmts):
+    out = []
+    stmts = [s for s in stmts if not _skip(s)]
+    for i, st in enumerate(stmts):
+        if isinstance(st, ast.If):
+            node = ("if", st.test, _raw(st.body), _raw(st.orelse))
+            rest = stmts[i + 1:]
+            if rest and _can_fold(node):
+                out.append(_fold(node, _raw(rest)))    # early return == else branch
+                return out
+            out.append(node)
+        elif isinstance(st, ast.With):
+            out.append(("with", st.items, _raw(st.body)))
+        elif isinstance(st, ast.Try):
+            if st.orelse or st.finalbody:
+                out.append(("?", "try-else-or-finally"))
+            else:
+                out.append(("try", _raw(st.body), [(h.type, _raw(h.body)) for h in st.handlers]))
+        elif isinstance(st, (ast.FunctionDef, ast.ClassDef)):
+            out.append(("def", st))
+        elif isinstance(st, (ast.For, ast.While, ast.AsyncFor)) or (hasattr(ast, "Match") and isinstance(st, ast.Match)):
+            out.append(("?", type(st).__name__))
+        else:
+            out.append(("stmt", st))
+    return out
+
+
+def _inline_returns(nodes):
+    """`x = E; return x`  ==  `return E`"""
+    out = []
+    for nd in nodes:
+        if out and nd[0] == "stmt" and isinstance(nd[1], ast.Return) and isinstance(nd[1].value, ast.Name) \
+                and out[-1][0] == "stmt" and isinstance(out[-1][1], ast.Assign) and len(out[-1][1].targets) == 1 \
+                and isinstance(out[-1][1].targets[0], ast.Name) and out[-1][1].targets[0].id == nd[1].value.id:
+            out[-1] = ("stmt", ast.Return(value=out[-1][1].value))
+        else:
+            out.append(nd)
+    return out
+
+
+class Renamer(ast.NodeTransformer):
+    """fixed: name -> canonical name; every other name in `local_names` gets x<i> in order of first occurrence"""
+
+    def __init__(self, fixed, local_names):
+        self.fixed = dict(fixed)
+        self.local_names = set(local_names)
+        self.n = 0
+
+    def name(self, ident):
+        if ident in self.fixed:
+            return self.fixed[ident]
+        if ident in self.local_names:
+            self.fixed[ident] = "x%d" % self.n
+            self.n += 1
+            return self.fixed[ident]
+        return ident
+
+    def visit_Name(self, node):
+        return ast.copy_location(ast.Name(id=self.name(node.id), ctx=node.ctx), node)
+
+    def text(self, node):
+        return ast.unparse(self.visit(copy.deepcopy(node)))
+
+
+def show(nodes, rn, test_hook=None):
+    out = []
+    for nd in nodes:
+        if nd[0] == "stmt":
+            st = nd[1]
+            if isinstance(st, ast.Raise) and isinstance(st.exc, ast.Call):
+                out.append("raise " + rn.text(st.exc.func))      # the message text is not a fact we depend on
+            elif isinstance(st, ast.AnnAssign) and st.value is not None:
+                out.append("%s = %s" % (rn.text(st.target), rn.text(st.value)))   # type hints dropped
+            else:
+                out.append(rn.text(st))
+        elif nd[0] == "if":
+            t = test_hook(nd[1]) if test_hook else None
+            cond = t or rn.text(nd[1])
+            s = "if(%s)[%s]" % (cond, show(nd[2], rn, test_hook))
+            if nd[3]:
+                s += "else[%s]" % show(nd[3], rn, test_hook)
+            out.append(s)
+        elif nd[0] == "with":
+            out.append("with(%s)[%s]" % (", ".join(rn.text(i.context_expr) for i in nd[1]), show(nd[2], rn, test_hook)))
+        elif nd[0] == "try":
+            s = "try[%s]" % show(nd[1], rn, test_hook)
+            for typ, h in nd[2]:
+                s += "except(%s)[%s]" % (rn.text(typ) if typ is not None else "", show(h, rn, test_hook))
+            out.append(s)
+        elif nd[0] == "def":
+            out.append("def(%s)" % rn.name(nd[1].name))
+        else:
+            out.append("?" + nd[1])
     return ";".join(out)
 
 
-def classify_instance_test(test):
-    """the operator deciding that `instance` is missing"""
+def inline_attribute_aliases(fn):
+    """a local bound exactly once to `self.<attr>` (e.g. `lock = self.create_single_instance_lock`) is that attribute"""
+    fn = copy.deepcopy(fn)
+    binds = {}
+    for n in ast.walk(fn):
+        if isinstance(n, ast.Name) and isinstance(n.ctx, ast.Store):
+            binds[n.id] = binds.get(n.id, 0) + 1
+    alias = {}
+    for n in ast.walk(fn):
+        if isinstance(n, ast.Assign) and len(n.targets) == 1 and isinstance(n.targets[0], ast.Name) \
+                and binds.get(n.targets[0].id) == 1 and isinstance(n.value, ast.Attribute) \
+                and isinstance(n.value.value, ast.Name) and n.value.value.id == "self":
+            alias[n.targets[0].id] = n.value
+
+    class T(ast.NodeTransformer):
+        def visit_Assign(self, node):
+            if len(node.targets) == 1 and isinstance(node.targets[0], ast.Name) and node.targets[0].id in alias:
+                return None
+            return self.generic_visit(node)
+
+        def visit_Name(self, node):
+            if isinstance(node.ctx, ast.Load) and node.id in alias:
+                return copy.deepcopy(alias[node.id])
+            return node
+    return T().visit(fn) if alias else fn
+
+
+def local_names_of(fn):
+    """names bound in fn's own scope (not in nested functions), in binding order; parameters first"""
+    params = [a.arg for a in fn.args.posonlyargs + fn.args.args + fn.args.kwonlyargs]
+    found = []
+
+    def visit(n):
+        for ch in ast.iter_child_nodes(n):
+            if isinstance(ch, (ast.FunctionDef, ast.Lambda, ast.ClassDef)):
+                if not isinstance(ch, ast.Lambda) and ch.name not in found:
+                    found.append(ch.name)
+                continue
+            if isinstance(ch, ast.Name) and isinstance(ch.ctx, ast.Store) and ch.id not in found:
+                found.append(ch.id)
+            visit(ch)
+    visit(fn)
+    return params, [n for n in found if n not in params]
+
+
+def classify_instance_test(test, var):
+    """the operator deciding that the looked-up instance `var` is missing"""
     if isinstance(test, ast.UnaryOp) and isinstance(test.op, ast.Not) and isinstance(test.operand, ast.Name) \
-            and test.operand.id == "instance":
+            and test.operand.id == var:
         return "not"
-    if isinstance(test, ast.Compare) and isinstance(test.left, ast.Name) and test.left.id == "instance" \
+    if isinstance(test, ast.Compare) and isinstance(test.left, ast.Name) and test.left.id == var \
             and len(test.ops) == 1 and isinstance(test.ops[0], ast.Is) and isinstance(test.comparators[0], ast.Constant) \
             and test.comparators[0].value is None:
         return "is None"
-    return "unknown: " + ast.unparse(test)
+    return None
 
 
 def lean_str(s):
@@ -67,6 +283,207 @@ def lean_strs(l):
     return "[" + ", ".join(lean_str(x) for x in l) + "]"
 
 
+def lean_bool(b):
+    return "true" if b else "false"
+
+
+# ---------------------------------------------------------------------------------------------------------
+# probes of the real objects
+# ---------------------------------------------------------------------------------------------------------
+class _FalsyCallable:
+    def __bool__(self):
+        return False
+
+    def __call__(self, clazz):
+        return clazz()
+
+
+MODE_ARGS = ["single", "session", "percall", "bogus", 42]          # codes 0..4 (3 = a string outside the three names, 4 = not a string)
+
+
+def _creator_args():
+    return [None, (lambda clazz: clazz()), _FalsyCallable(), 17, 0]   # codes 0..4: None / callable / falsy callable / truthy non-callable / falsy non-callable
+
+
+def _stored_code(cls, creator_arg=None, check_identity=False):
+    m, c = cls._pyroInstancing
+    if check_identity and c is not creator_arg:
+        return 9
+    mi = ("single", "session", "percall").index(m) if m in ("single", "session", "percall") else 3
+    return 100 + 10 * mi + (0 if c is None else 1 if c else 2)
+
+
+def probe_behavior():
+    """behavior(mode, creator)(target) over the whole abstract table -> rows (isClass, mode code, creator code, result code)
+    result: 100 + 10*mode + creator-as-createInstance-sees-it (0 None / 1 truthy / 2 falsy) | 1 TypeError | 2 ValueError | 3 SyntaxError | 9 other"""
+    from Pyro5 import server
+    rows = []
+    for is_class in (True, False):
+        for mi, mval in enumerate(MODE_ARGS):
+            for ci, cval in enumerate(_creator_args()):
+                target = type("B", (object,), {}) if is_class else (lambda: None)
+                try:
+                    res = server.behavior(instance_mode=mval, instance_creator=cval)(target)
+                    code = _stored_code(res, cval, True) if res is target else 9
+                except TypeError:
+                    code = 1
+                except ValueError:
+                    code = 2
+                except SyntaxError:
+                    code = 3
+                except Exception:
+                    code = 9
+                rows.append((is_class, mi, ci, code))
+    try:
+        default = _stored_code(server.behavior()(type("B", (object,), {})))
+    except Exception:
+        default = 9
+    return rows, default
+
+
+def _quiet_daemon():
+    from Pyro5 import config, server
+    old = config.SERVERTYPE
+    config.SERVERTYPE = "multiplex"
+    try:
+        return server.Daemon(host="127.0.0.1", port=0)
+    finally:
+        config.SERVERTYPE = old
+
+
+def _forget_types(classes):
+    import serpent
+    from Pyro5 import serializers
+    for cls in classes:
+        try:
+            serpent.unregister_class(cls)
+        except Exception:
+            pass
+        for ser in (serializers.JsonSerializer, serializers.MsgpackSerializer):
+            d = getattr(ser, "_%s__type_replacements" % ser.__name__, None)
+            if isinstance(d, dict):
+                d.pop(cls, None)
+
+
+def probe_register():
+    """what `register` leaves in `_pyroInstancing`: undecorated class / decorated class / undecorated subclass of a decorated one"""
+    from Pyro5 import server
+    d = _quiet_daemon()
+    made = []
+    try:
+        plain = type("P", (object,), {})
+        deco = server.behavior(instance_mode="percall", instance_creator=lambda c: c())(type("Q", (object,), {}))
+        base = server.behavior(instance_mode="single")(type("R", (object,), {}))
+        sub = type("S", (base,), {})
+        made = [plain, deco, base, sub]
+        out = []
+        for i, cls in enumerate((plain, deco, sub)):
+            try:
+                d.register(cls, "c09probe%d" % i)
+                out.append(_stored_code(cls))
+            except Exception:
+                out.append(9)
+        return out
+    finally:
+        _forget_types(made)
+        d.close()
+
+
+class _Sock:
+    def __init__(self, bad_shutdown=False, bad_close=False):
+        self.bad_shutdown, self.bad_close = bad_shutdown, bad_close
+
+    def shutdown(self, how):
+        if self.bad_shutdown:
+            raise OSError(107, "not connected")
+
+    def close(self):
+        if self.bad_close:
+            raise OSError(9, "bad file descriptor")
+
+
+def probe_connection():
+    """-> (a new connection has an empty table of its own, {scenario: table empty after close()})"""
+    from Pyro5 import socketutil
+    a, b = socketutil.SocketConnection(_Sock()), socketutil.SocketConnection(_Sock())
+    fresh = a.pyroInstances == {} and b.pyroInstances == {} and a.pyroInstances is not b.pyroInstances \
+        and "pyroInstances" in vars(a)
+    res = []
+    for name, kw, sock in (("plain", {}, _Sock()), ("keep_open", {"keep_open": True}, _Sock()),
+                           ("shutdown-fails", {}, _Sock(bad_shutdown=True)), ("close-fails", {}, _Sock(bad_close=True)),
+                           ("both-fail", {}, _Sock(True, True))):
+        c = socketutil.SocketConnection(sock, **kw)
+        c.pyroInstances[object] = object()
+        try:
+            c.close()
+            res.append((name, len(c.pyroInstances) == 0))
+        except Exception:
+            res.append((name + ":raised", len(c.pyroInstances) == 0))
+        c.keep_open = True          # its __del__ must not do anything more
+    a.keep_open = b.keep_open = True
+    return fresh, res
+
+
+def probe_daemons():
+    """two Daemon objects: own table, own lock, nothing at class level; kind of the lock"""
+    from Pyro5 import server
+    d1, d2 = _quiet_daemon(), _quiet_daemon()
+    try:
+        t1, t2 = getattr(d1, "_pyroInstances", None), getattr(d2, "_pyroInstances", None)
+        own_tables = isinstance(t1, dict) and t1 == {} and t2 == {} and t1 is not t2 and "_pyroInstances" in vars(d1)
+        lk, lk2 = getattr(d1, "create_single_instance_lock", None), getattr(d2, "create_single_instance_lock", None)
+        own_locks = lk is not None and lk is not lk2 and "create_single_instance_lock" in vars(d1)
+        class_level = [n for n in ("_pyroInstances", "create_single_instance_lock") if hasattr(server.Daemon, n)]
+        kind = "Lock" if type(lk) is type(threading.Lock()) else "RLock" if type(lk) is type(threading.RLock()) \
+            else type(lk).__name__
+        return own_tables, own_locks, class_level, kind
+    finally:
+        d1.close()
+        d2.close()
+
+
+def probe_tests():
+    """the behaviour of the two lookups on a stored FALSY instance: 'is None' (re-used) | 'not' (re-created) | 'unknown'"""
+    from Pyro5 import server, socketutil
+
+    def one(mode):
+        d = _quiet_daemon()
+        try:
+            made = []
+
+            class K:
+                truth = False
+
+                def __init__(self):
+                    self.t = K.truth
+                    made.append(self)
+
+                def __bool__(self):
+                    return self.t
+            cls = server.behavior(instance_mode=mode)(K)
+            conn = socketutil.SocketConnection(_Sock())
+            try:
+                K.truth = True
+                t1 = d._getInstance(cls, conn)
+                t2 = d._getInstance(cls, conn)
+                if t1 is not t2:
+                    return "unknown"
+                d._pyroInstances.pop(cls, None)
+                conn.pyroInstances.pop(cls, None)
+                K.truth = False
+                f1 = d._getInstance(cls, conn)
+                f2 = d._getInstance(cls, conn)
+                return "is None" if f1 is f2 else "not"
+            finally:
+                conn.keep_open = True
+        except Exception:
+            return "unknown"
+        finally:
+            d.close()
+    return one("single"), one("session")
+
+
+# ---------------------------------------------------------------------------------------------------------
 def extract():
     common.repo_on_path()
     server_path = os.path.join(common.REPO, "Pyro5", "server.py")
@@ -74,63 +491,110 @@ def extract():
     tree = ast.parse(open(server_path).read())
     daemon = [n for n in tree.body if isinstance(n, ast.ClassDef) and n.name == "Daemon"][0]
     fns = {n.name: n for n in daemon.body if isinstance(n, ast.FunctionDef)}
-    gi = fns["_getInstance"]
+    gi = inline_attribute_aliases(fns["_getInstance"])
 
-    # ---- the mode chain -------------------------------------------------------------------
-    body = [st for st in gi.body if not _is_doc(st)]
-    if not (len(body) == 3 and isinstance(body[0], ast.FunctionDef) and body[0].name == "createInstance"
-            and isinstance(body[1], ast.Assign) and isinstance(body[2], ast.If)):
-        raise ValueError("_getInstance: unexpected statement structure")
-    unpack = ast.unparse(body[1])
-    branches = []          # (mode literal, statements)
-    node = body[2]
-    else_body = None
+    # ---- canonical names of _getInstance ----------------------------------------------------
+    params, locs = local_names_of(gi)
+    fixed = {}
+    for i, p in enumerate([p for p in params if p != "self"]):
+        fixed[p] = "a%d" % i
+    helpers = [st for st in gi.body if isinstance(st, ast.FunctionDef)]
+    for i, h in enumerate(helpers):
+        fixed[h.name] = "f%d" % i
+    body = norm([st for st in gi.body if not isinstance(st, ast.FunctionDef)])
+    # the statement(s) before the mode chain bind the function-level locals (mode, creator)
+    pre = []
+    while body and body[0][0] == "stmt":
+        pre.append(body.pop(0)[1])
+    # `t = E; a, b = t`  ==  `a, b = E`
+    if len(pre) == 2 and all(isinstance(p, ast.Assign) and len(p.targets) == 1 for p in pre) \
+            and isinstance(pre[0].targets[0], ast.Name) and isinstance(pre[1].value, ast.Name) \
+            and pre[1].value.id == pre[0].targets[0].id \
+            and sum(1 for n in ast.walk(gi) if isinstance(n, ast.Name) and n.id == pre[0].targets[0].id) == 2:
+        pre = [ast.Assign(targets=pre[1].targets, value=pre[0].value, lineno=0)]
+    for st in pre:
+        for n in ast.walk(st):
+            if isinstance(n, ast.Name) and isinstance(n.ctx, ast.Store) and n.id not in fixed:
+                fixed[n.id] = "v%d" % len([v for v in fixed.values() if v.startswith("v")])
+    branch_locals = [n for n in locs if n not in fixed]
+    unpack = ";".join(Renamer(fixed, []).text(st) for st in pre)
+    mode_var = None
+    if len(pre) == 1 and isinstance(pre[0], ast.Assign) and isinstance(pre[0].targets[0], ast.Tuple) \
+            and isinstance(pre[0].targets[0].elts[0], ast.Name):
+        mode_var = pre[0].targets[0].elts[0].id
+    if len(body) != 1 or body[0][0] != "if" or mode_var is None:
+        raise ValueError("_getInstance: no chain of tests on the instance mode found")
+
+    branches = []          # (mode literal, normalised statements)
+    node = body[0]
     while True:
-        t = node.test
-        if not (isinstance(t, ast.Compare) and isinstance(t.left, ast.Name) and t.left.id == "instance_mode"
+        t = node[1]
+        if not (isinstance(t, ast.Compare) and isinstance(t.left, ast.Name) and t.left.id == mode_var
                 and len(t.ops) == 1 and isinstance(t.ops[0], ast.Eq) and isinstance(t.comparators[0], ast.Constant)):
             raise ValueError("_getInstance: unexpected mode test " + ast.unparse(t))
-        branches.append((t.comparators[0].value, node.body))
-        if len(node.orelse) == 1 and isinstance(node.orelse[0], ast.If):
-            node = node.orelse[0]
+        branches.append((t.comparators[0].value, node[2]))
+        if len(node[3]) == 1 and node[3][0][0] == "if":
+            node = node[3][0]
         else:
-            else_body = node.orelse
+            else_body = node[3]
             break
     tests = {}
 
     def hook_for(mode):
-        def hook(ifnode):
-            names = {n.id for n in ast.walk(ifnode.test) if isinstance(n, ast.Name)}
-            if names == {"instance"}:
-                tests.setdefault(mode, []).append(classify_instance_test(ifnode.test))
+        def hook(test):
+            names = {n.id for n in ast.walk(test) if isinstance(n, ast.Name)}
+            if len(names) == 1 and next(iter(names)) in branch_locals:
+                tests.setdefault(mode, []).append(classify_instance_test(test, next(iter(names))) or "unknown")
                 return "TEST"
             return None
         return hook
-    shapes = {m: skel(b, hook_for(m)) for m, b in branches}
+    shapes = {m: show(b, Renamer(fixed, branch_locals), hook_for(m)) for m, b in branches}
+    else_shape = show(else_body, Renamer(fixed, branch_locals))
+    probed = None
 
-    def one_test(mode):
+    def one_test(mode, idx):
+        nonlocal probed
         l = tests.get(mode, [])
-        return l[0] if len(l) == 1 else "unknown: %d tests" % len(l)
+        if len(l) == 1 and l[0] != "unknown":
+            return l[0]
+        if probed is None:                 # the spelling is not recognised: ask the real code
+            probed = probe_tests()
+        return probed[idx]
 
-    # ---- createInstance -------------------------------------------------------------------
-    create_shape = skel(body[0].body)
-    create_args = [a.arg for a in body[0].args.args]
+    # ---- the creation helper ----------------------------------------------------------------
+    if len(helpers) != 1:
+        raise ValueError("_getInstance: expected one nested creation helper, found %d" % len(helpers))
+    hp, hl = local_names_of(helpers[0])
+    hfixed = {p: "a%d" % i for i, p in enumerate(hp)}
+    create_shape = show(norm(helpers[0].body), Renamer(hfixed, hl))
 
-    # ---- lock shape: accesses of self._pyroInstances per function, inside/outside the lock ----
+    # ---- lock shape ---------------------------------------------------------------------------
     shape = []
 
     def count(fn):
         inside = outside = 0
+        aliases = set()
+        binds = {}
+        for n in ast.walk(fn):
+            if isinstance(n, ast.Assign) and len(n.targets) == 1 and isinstance(n.targets[0], ast.Name):
+                binds.setdefault(n.targets[0].id, []).append(n.value)
+        for name, vals in binds.items():
+            if len(vals) == 1 and isinstance(vals[0], ast.Attribute) and vals[0].attr == "create_single_instance_lock" \
+                    and getattr(vals[0].value, "id", None) == "self":
+                aliases.add(name)
+
+        def is_lock(e):
+            return (isinstance(e, ast.Attribute) and e.attr == "create_single_instance_lock"
+                    and getattr(e.value, "id", None) == "self") or (isinstance(e, ast.Name) and e.id in aliases)
 
         def visit(n, locked):
             nonlocal inside, outside
             if isinstance(n, ast.With):
-                is_lock = any(isinstance(i.context_expr, ast.Attribute) and i.context_expr.attr == "create_single_instance_lock"
-                              and getattr(i.context_expr.value, "id", None) == "self" for i in n.items)
+                lk = any(is_lock(i.context_expr) for i in n.items)
                 for i in n.items:
                     visit(i.context_expr, locked)
                 for st in n.body:
-                    visit(st, locked or is_lock)
+                    visit(st, locked or lk)
                 return
             if isinstance(n, ast.Attribute) and n.attr == "_pyroInstances":
                 if locked:
@@ -144,111 +608,98 @@ def extract():
         return inside, outside
     for top in tree.body:
         if isinstance(top, ast.ClassDef):
-            for f in top.body:
-                if isinstance(f, ast.FunctionDef):
-                    i, o = count(f)
+            for st in top.body:
+                if isinstance(st, ast.FunctionDef):
+                    i, o = count(st)
                     if i or o:
-                        shape.append(("%s.%s" % (top.name, f.name), i, o))
+                        shape.append(("%s.%s" % (top.name, st.name), i, o))
+                elif any(isinstance(n, (ast.Name, ast.Attribute)) and getattr(n, "id", getattr(n, "attr", None)) == "_pyroInstances"
+                         for n in ast.walk(st)):
+                    shape.append(("%s.<class body>" % top.name, 0, 1))
         elif isinstance(top, ast.FunctionDef):
             i, o = count(top)
             if i or o:
                 shape.append((top.name, i, o))
-    lock_kind = "unknown"
-    for n in ast.walk(fns["__init__"]):
-        if isinstance(n, ast.Assign) and any(isinstance(t, ast.Attribute) and t.attr == "create_single_instance_lock"
-                                             for t in n.targets) and isinstance(n.value, ast.Call):
-            lock_kind = ast.unparse(n.value.func)
-    # every Daemon object gets its own table and its own lock, in __init__; neither exists at class level
-    init_tables = [ast.unparse(n) for n in fns["__init__"].body
-                   if isinstance(n, ast.Assign) and any(isinstance(t, ast.Attribute) and t.attr in
-                                                        ("_pyroInstances", "create_single_instance_lock") for t in n.targets)]
-    class_level = []
-    for st in daemon.body:
-        if isinstance(st, (ast.Assign, ast.AnnAssign)):
-            targets = st.targets if isinstance(st, ast.Assign) else [st.target]
-            if any(isinstance(t, ast.Name) and t.id in ("_pyroInstances", "create_single_instance_lock") for t in targets):
-                class_level.append(ast.unparse(st))
     callers = []
-    for top in ast.walk(tree):
-        if isinstance(top, ast.FunctionDef):
-            for n in ast.walk(top):
-                if isinstance(n, ast.Call) and isinstance(n.func, ast.Attribute) and n.func.attr == "_getInstance":
-                    callers.append("%s: %s" % (top.name, ast.unparse(n)))
+    for top in tree.body:
+        for f in ([top] if isinstance(top, ast.FunctionDef) else
+                  [x for x in top.body if isinstance(x, ast.FunctionDef)] if isinstance(top, ast.ClassDef) else []):
+            k = sum(1 for n in ast.walk(f) if isinstance(n, ast.Call) and isinstance(n.func, ast.Attribute)
+                    and n.func.attr == "_getInstance")
+            if k:
+                callers.append("%s.%s:%d" % (top.name, f.name, k) if isinstance(top, ast.ClassDef) else "%s:%d" % (f.name, k))
 
-    # ---- behavior / register ----------------------------------------------------------------
-    beh = [n for n in tree.body if isinstance(n, ast.FunctionDef) and n.name == "behavior"][0]
-    beh_defaults = [ast.unparse(d) for d in beh.args.defaults]
-    inner = [n for n in beh.body if isinstance(n, ast.FunctionDef)][0]
-    beh_outer = skel([st for st in beh.body if not isinstance(st, ast.FunctionDef)])
-    beh_inner = skel(inner.body)
-    reg_default = "unknown"
-    for n in ast.walk(fns["register"]):
-        if isinstance(n, ast.If) and "_pyroInstancing" in ast.unparse(n.test):
-            reg_default = "if(%s)[%s]" % (ast.unparse(n.test), skel(n.body))
-
-    # ---- SocketConnection -------------------------------------------------------------------
-    stree = ast.parse(open(sock_path).read())
-    sc = [n for n in stree.body if isinstance(n, ast.ClassDef) and n.name == "SocketConnection"][0]
-    sfns = {n.name: n for n in sc.body if isinstance(n, ast.FunctionDef)}
-    conn_init = [s for s in skel(sfns["__init__"].body).split(";") if "pyroInstances" in s or "keep_open" in s]
-    close_top = []
-    for st in sfns["close"].body:
-        if _is_doc(st):
-            continue
-        s = skel([st])
-        close_top.append(s if ("pyroInstances" in s or "keep_open" in s) else type(st).__name__)
-    other_touch = []
-    for top in ast.walk(stree):
-        if isinstance(top, ast.FunctionDef) and top.name not in ("__init__", "close"):
-            if any(isinstance(n, ast.Attribute) and n.attr == "pyroInstances" for n in ast.walk(top)):
-                other_touch.append(top.name)
-    # every other use of `.pyroInstances` in the package's server side
+    # ---- who else mentions the two tables -----------------------------------------------------
     users = []
     pkg = os.path.join(common.REPO, "Pyro5")
     for fname in sorted(os.listdir(pkg)):
-        if fname.endswith(".py"):
-            t = ast.parse(open(os.path.join(pkg, fname)).read())
-            k = sum(1 for n in ast.walk(t) if isinstance(n, ast.Attribute) and n.attr in ("pyroInstances", "_pyroInstances"))
-            if k:
-                users.append("%s:%d" % (fname, k))
+        if not fname.endswith(".py"):
+            continue
+        t = ast.parse(open(os.path.join(pkg, fname)).read())
+
+        def scan(scope, nodes):
+            for n in nodes:
+                if isinstance(n, (ast.FunctionDef, ast.AsyncFunctionDef)):
+                    if any(isinstance(x, ast.Attribute) and x.attr in ("pyroInstances", "_pyroInstances") for x in ast.walk(n)):
+                        users.append("%s:%s%s" % (fname, scope, n.name))
+                elif isinstance(n, ast.ClassDef):
+                    scan(scope + n.name + ".", n.body)
+                elif any(isinstance(x, (ast.Attribute, ast.Name)) and getattr(x, "attr", getattr(x, "id", None))
+                         in ("pyroInstances", "_pyroInstances") for x in ast.walk(n)):
+                    users.append("%s:%s<body>" % (fname, scope))
+        scan("", t.body)
+
+    # ---- probes ---------------------------------------------------------------------------------
+    beh_rows, beh_default = probe_behavior()
+    reg = probe_register()
+    conn_fresh, conn_close = probe_connection()
+    own_tables, own_locks, class_level, lock_kind = probe_daemons()
 
     rows = ", ".join("(%s, %d, %d)" % (lean_str(n), i, o) for n, i, o in shape)
-    return f"""-- GENERATED by harness/props/c09_extract.py from Pyro5/server.py and Pyro5/socketutil.py — do not edit
+    brows = ", ".join("(%s, %d, %d, %d)" % (lean_bool(a), b, c, d) for a, b, c, d in beh_rows)
+    crows = ", ".join("(%s, %s)" % (lean_str(n), lean_bool(b)) for n, b in conn_close)
+    return f"""-- GENERATED by harness/props/c09_extract.py from Pyro5/server.py and Pyro5/socketutil.py (source structure + probes of the real objects) — do not edit
 namespace Pyro.Gen.C09
-/-- `instance_mode, instance_creator = clazz._pyroInstancing` -/
+/-! normalised structure of `Daemon._getInstance` (a<i> parameters without self, v<i> function-level locals, f<i> nested helper,
+    x<i> locals of a branch; logging / docstrings / message texts dropped; early returns folded into else branches) -/
+/-- the statements before the chain of mode tests -/
 def unpack : String := {lean_str(unpack)}
-/-- the string literals of the `if instance_mode == ...` chain of `_getInstance`, in order -/
+/-- the string literals the instance mode is compared with, in order -/
 def modeBranches : List String := {lean_strs([m for m, _ in branches])}
-/-- statement skeleton of each branch (logging dropped; the test on `instance` replaced by TEST) -/
+/-- each branch (the test on the looked-up instance replaced by TEST) -/
 def singleShape : String := {lean_str(shapes.get("single", "missing"))}
 def sessionShape : String := {lean_str(shapes.get("session", "missing"))}
 def percallShape : String := {lean_str(shapes.get("percall", "missing"))}
-def elseShape : String := {lean_str(skel(else_body or []))}
-/-- the operator with which each branch decides that there is no instance yet: "not" | "is None" -/
-def singleTest : String := {lean_str(one_test("single"))}
-def sessionTest : String := {lean_str(one_test("session"))}
-/-- the nested `createInstance({", ".join(create_args)})` -/
-def createArgs : List String := {lean_strs(create_args)}
+def elseShape : String := {lean_str(else_shape)}
+/-- the operator with which each branch decides that there is no instance yet: "not" | "is None"
+    (from the source when the spelling is recognised, otherwise from probing the real `_getInstance` with a falsy instance) -/
+def singleTest : String := {lean_str(one_test("single", 0))}
+def sessionTest : String := {lean_str(one_test("session", 1))}
+/-- the nested creation helper, normalised the same way (a0 = class, a1 = creator) -/
 def createShape : String := {lean_str(create_shape)}
-/-- (function, accesses of `._pyroInstances` lexically inside `with self.create_single_instance_lock:`, outside) -/
+/-- (function, accesses of `._pyroInstances` lexically inside `with <the single-instance lock>:`, outside) -/
 def instShape : List (String × Nat × Nat) := [{rows}]
-def lockKind : String := {lean_str(lock_kind)}
+/-- functions that call `_getInstance`, with the number of call sites -/
 def getInstanceCallers : List String := {lean_strs(callers)}
-/-- top-level statements of `Daemon.__init__` that assign the single-instance table / its lock, and class-level
-    assignments of the same names in `class Daemon` -/
-def daemonInitTables : List String := {lean_strs(init_tables)}
-def daemonClassLevelTables : List String := {lean_strs(class_level)}
-/-- `behavior(instance_mode=..., instance_creator=...)`: defaults, outer statements, `_behavior(clazz)` -/
-def behaviorDefaults : List String := {lean_strs(beh_defaults)}
-def behaviorOuter : String := {lean_str(beh_outer)}
-def behaviorInner : String := {lean_str(beh_inner)}
-def registerDefault : String := {lean_str(reg_default)}
-/-- SocketConnection: what `__init__` and `close` do with `pyroInstances` / `keep_open`, in statement order -/
-def connInit : List String := {lean_strs(conn_init)}
-def connClose : List String := {lean_strs(close_top)}
-def connOtherWriters : List String := {lean_strs(other_touch)}
-/-- files of the package that mention `.pyroInstances` / `._pyroInstances`, with the number of mentions -/
+/-- every function of the package that mentions `.pyroInstances` / `._pyroInstances` -/
 def tableUsers : List String := {lean_strs(users)}
+/-! probes of the real objects -/
+/-- two Daemon objects: each has an empty dict of its own / a lock of its own in its instance dict; names also present on the class -/
+def daemonsOwnTables : Bool := {lean_bool(own_tables)}
+def daemonsOwnLocks : Bool := {lean_bool(own_locks)}
+def daemonClassLevelTables : List String := {lean_strs(class_level)}
+def lockKind : String := {lean_str(lock_kind)}
+/-- behavior(mode, creator)(target): (target is a class, mode code, creator code, result code)
+    mode 0 single 1 session 2 percall 3 other string 4 not a string; creator 0 None 1 callable 2 falsy callable 3 truthy non-callable 4 falsy non-callable;
+    result 100 + 10*mode + creator as createInstance will see it (0 None 1 truthy 2 falsy) | 1 TypeError | 2 ValueError | 3 SyntaxError | 9 other -/
+def behaviorTable : List (Bool × Nat × Nat × Nat) := [{brows}]
+/-- `behavior()` without arguments applied to a class -/
+def behaviorDefault : Nat := {beh_default}
+/-- `_pyroInstancing` after `Daemon.register` of: an undecorated class, a percall/creator class, an undecorated subclass of a single class -/
+def registerProbe : List Nat := {reg}
+/-- SocketConnection: a new connection has an empty table of its own; is the table empty after close() in each scenario -/
+def connFresh : Bool := {lean_bool(conn_fresh)}
+def connClose : List (String × Bool) := [{crows}]
 end Pyro.Gen.C09
 """
 
